@@ -60,7 +60,12 @@ func linkIO(key []byte) iface.IO {
 	if err != nil {
 		panic(&harnessError{"secretbox: " + err.Error()})
 	}
-	return defaultIO().ApplyOptions(&cbor.Options{LinkKey: &faultyKey{SharedKey: sk, failSeal: &sealFault}})
+	// the options value is the caller's: it is wiped (and could be reused for another codec) once the codec
+	// has been derived from it
+	o := &cbor.Options{LinkKey: &faultyKey{SharedKey: sk, failSeal: &sealFault}}
+	io := defaultIO().ApplyOptions(o)
+	o.LinkKey = nil
+	return io
 }
 
 func pbIO() iface.IO {
@@ -303,6 +308,7 @@ func (w *World) doIter() {
 		}()
 		done <- iterRes{err: n.Log.Iterator(opts, ch)}
 	}()
+	amountGiven := amount
 	var got []string
 	closed := false
 	var res iterRes
@@ -336,6 +342,9 @@ func (w *World) doIter() {
 		}
 	}
 	r.Logf("iter n%d %s cap=%d |range|=%d -> %d emitted closed=%v err=%v", n.Idx, desc, capN, len(D), len(got), closed, res.err != nil)
+	if amount != amountGiven {
+		r.Violate("C15:caller-amount-modified", "Iterator(%s) rewrote the caller's amount from %d to %d", desc, amountGiven, amount)
+	}
 	if res.pan != nil {
 		site, _ := panicSite(res.pan.stack)
 		r.Violate("C15:panic", "Iterator panicked: %v | %s (options %s, range %d)", res.pan.val, site, desc, len(D))
@@ -1095,6 +1104,28 @@ func (w *World) tamperLegacy(n *Node, h string, kind, pick, wk int) {
 func (w *World) afterAppend(n *Node, e iface.IPFSLogEntry, me *MEntry) {
 	r := w.R
 	chk := w.P.Check
+	if w.Codec != "pb" && r.Choose("republish", 8) == 0 {
+		// the application publishes the entry once more somewhere else (another store; its pre-signature form
+		// or the default codec): that is about the copy that is written, the entry in the log stays what it is
+		fp := fingerprint(e)
+		var opts *iface.CreateEntryOptions
+		io := w.IO
+		if r.Choose("republish-how", 2) == 0 {
+			opts = &iface.CreateEntryOptions{PreSigned: true}
+		} else {
+			io = defaultIO()
+		}
+		out := Protect(func() { _, _ = entry.ToMultihashWithIO(w.ctx, e, NewStore(), opts, io) })
+		if out.Status == "violation" {
+			r.Violate(w.P.Prop+":republish-panic", "publishing an appended entry once more panicked: %s", out.Msg)
+		} else if out.Status != "ok" {
+			r.Harness("%s", out.Msg)
+		}
+		if f := fingerprint(e); f != fp {
+			r.Violate(w.P.Prop+":mutated", "publishing entry %s once more (another store) changed the entry the log holds: was %s now %s", w.M.Name(me.Hash), fp, f)
+		}
+		r.Probe("entry-published-once-more")
+	}
 	if chk["C06"] {
 		var err error
 		out := Protect(func() { err = e.Verify(n.W.ID.Provider, w.IO) })
